@@ -31,14 +31,18 @@ type liveSite struct {
 var siteCache *liveSite
 
 // getSite starts (or reuses) an instance serving the given server-block body on 127.0.0.1:0.
-func getSite(body string) (*liveSite, error) {
-	if siteCache != nil && siteCache.text == body {
+func getSite(body string) (*liveSite, error) { return getSiteAt(body, "Casketfile") }
+
+// getSiteAt is getSite with the path the configuration claims to have been loaded from (the
+// origin Casketfile, which the http server hides when it lies inside the site root).
+func getSiteAt(body, originPath string) (*liveSite, error) {
+	if siteCache != nil && siteCache.text == body+"@"+originPath {
 		return siteCache, nil
 	}
 	stopSite()
 	casket.Quiet = true
 	text := "127.0.0.1:0 {\n" + body + "\n}\n"
-	inst, err := casket.Start(casket.CasketfileInput{Contents: []byte(text), Filepath: "Casketfile", ServerTypeName: "http"})
+	inst, err := casket.Start(casket.CasketfileInput{Contents: []byte(text), Filepath: originPath, ServerTypeName: "http"})
 	if err != nil {
 		return nil, err
 	}
@@ -48,7 +52,7 @@ func getSite(body string) (*liveSite, error) {
 		return nil, fmt.Errorf("no servers")
 	}
 	_, port, _ := net.SplitHostPort(srvs[0].Addr().String())
-	siteCache = &liveSite{inst: inst, addr: "127.0.0.1:" + port, text: body}
+	siteCache = &liveSite{inst: inst, addr: "127.0.0.1:" + port, text: body + "@" + originPath}
 	return siteCache, nil
 }
 
